@@ -840,6 +840,11 @@ def directed_cases():
     # list values at the sizes of the item buffer, many items, white space other than SP/HT
     for v in (b"{" + b"x" * 1000 + b"}", b"{" + b" ".join([b"i"] * 400) + b"}", b"{a\x0bb\x0cc\rd}", b"{a}", b"{ a }", b"{a b}x}", b"{{}"):
         out.append(doc([H(b"s"), E(b"l", v)], ["gget 73 6c NULL 0 0 %s" % z]))
+    # the same bytes through a named pipe (a path that cannot be sought in or rewound): plain, with a UTF-8 mark, raw bytes
+    out.append(["fifo 1"] + doc([H(b"net"), E(b"host", b"a"), E(b"port", b"80"), H(b"t"), E(b"x", b"1", "d")],
+                                ["gget %s %s NULL 0 0 %s" % (hx(b"net"), hx(b"port"), z)]) + ["fifo 0"])
+    out.append(["fifo 1", "raw " + (b"\xef\xbb\xbf[net]\nhost = a\n[t]\nx=1\n").hex(), "parse", "reset",
+                "raw " + (b"[s]\nk=v\n").hex(), "parse", "reset", "parse", "fifo 0"])
     return out
 
 
